@@ -51,10 +51,7 @@ theorem trimEnd_e (e : Pr) (xs : List APos) :
     rw [← List.map_reverse, List.dropWhile_map]
     congr 2; funext a; simp only [Function.comp, eA_isPair, APos_leqAny_e]
   rw [h]
-  simp only [List.isEmpty_map, ← List.map_reverse]
-  split
-  · rfl
-  · split <;> rfl
+  simp [Except.map, List.map_reverse]
 
 theorem slice_e (s : Seg) (a b : SP) : (eS s).slice (eSP a) (eSP b) = (s.slice a b).map eS := by
   unfold Seg.slice
